@@ -278,7 +278,8 @@ fn run_one_inner(w: &Value, prefix: &[String]) -> Exec {
         tokio::task::yield_now().await;
         let mut reopen = BTreeMap::new();
         let mut reopen_ok = json!("ok");
-        match std::panic::AssertUnwindSafe(Database::new_on_disk(disk_opts(&dir, &opts))).catch_unwind().await {
+        let do_reopen = w.get("reopen").and_then(|v| v.as_bool()).unwrap_or(true);
+        if do_reopen { match std::panic::AssertUnwindSafe(Database::new_on_disk(disk_opts(&dir, &opts))).catch_unwind().await {
             Ok(db2) => {
                 for t in &tables {
                     reopen.insert(t.clone(), run_stmt(&db2, &format!("select * from {t}")).await);
@@ -286,7 +287,7 @@ fn run_one_inner(w: &Value, prefix: &[String]) -> Exec {
                 let _ = std::panic::AssertUnwindSafe(db2.shutdown()).catch_unwind().await;
             }
             Err(e) => reopen_ok = json!({"open_panic": panic_msg(e)}),
-        }
+        } }
         let out = json!({
             "setup_ok": setup_res.iter().all(|r| r.get("rows").is_some() && r.get("task_panics").is_none()),
             "stmts": stmts, "final": fin, "shutdown": shutdown_ok, "reopen_open": reopen_ok, "reopen": reopen,
@@ -314,6 +315,8 @@ pub fn explore(w: &Value, out: &mut impl Write) -> bool {
             "da": e0.divergence, "db": e1.divergence, "oa": e0.out, "ob": e1.out}));
         return false;
     }
+    // optional sharding of one workload's schedule tree: the children of the root execution are dealt round-robin
+    let (shard_i, shard_n) = w.get("shard").and_then(|v| v.as_array()).map(|a| (a[0].as_u64().unwrap() as usize, a[1].as_u64().unwrap() as usize)).unwrap_or((0, 1));
     let mut stack: Vec<Vec<String>> = vec![vec![]];
     let (mut n, mut steps, mut capped) = (0usize, 0usize, false);
     let mut max_pre = 0u32;
@@ -328,7 +331,14 @@ pub fn explore(w: &Value, out: &mut impl Write) -> bool {
         }
         let total_pre = e.preempt.last().copied().unwrap_or(0);
         max_pre = max_pre.max(total_pre);
-        let _ = writeln!(out, "{}", json!({"w": name, "trace": e.trace, "pre": total_pre, "out": e.out}));
+        let is_root = prefix.is_empty();
+        if !(is_root && shard_i != 0) {
+            let _ = writeln!(out, "{}", json!({"w": name, "trace": e.trace, "pre": total_pre, "out": e.out}));
+        } else {
+            n -= 1;
+            steps -= e.trace.len();
+        }
+        let mut child_idx = 0usize;
         for i in prefix.len()..e.trace.len() {
             let before = if i == 0 { 0 } else { e.preempt[i - 1] };
             let last_actor = if i == 0 { None } else { Some(actor_of(&e.trace[i - 1])) };
@@ -347,6 +357,12 @@ pub fn explore(w: &Value, out: &mut impl Write) -> bool {
                 }
                 let mut p = e.trace[..i].to_vec();
                 p.push(alt.clone());
+                if is_root {
+                    child_idx += 1;
+                    if (child_idx - 1) % shard_n != shard_i {
+                        continue;
+                    }
+                }
                 stack.push(p);
             }
         }
